@@ -800,7 +800,7 @@ func TestC15(t *testing.T) {
 	c := begin(t, "C15")
 	defer c.end()
 	c.rec.F.Rule = "rapid operation sequences (1-40 steps) over an object obtained from a v2 or v3 decoder of any level on a valid, mutated or arbitrary input (successful object, or the receiver left behind by a failed decode): observer queries (Score, Severity, GetError, Encode, String on every level view reached through the accessors), full observations, report construction and export, exported-field assignments (any code or the unknown/invalid constant), further Decodes on an object that was decoded successfully (each must fail, or yield exactly what a fresh decoder yields; after a refused one nothing is asserted until one succeeds), and noise (decoding, querying and reporting other vectors); one case in four queries the constructor result completely *before* its Decode. Subjects are also built by pure field assignment on a constructor result (no Decode), and v2 subjects may have optional-group fields assigned before their Decode (then the object must answer like a fresh decode of its own encoding). A deterministic sweep runs query / assign / query for every exported field x every value on 6 representative vectors, for decoded, pre-queried and field-built subjects. After every step the queried object must equal a freshly decoded, never-queried twin rebuilt from the recipe (exported fields by reflection, every query result at every level, v3 report structs in en and ja), the twin must equal the twin built before the history, and every query repeated twice must agree. Parsers: every code of every metric parsed 200 times. Non-trivial = a sequence containing a query, a later field assignment and a later query, or any query on a failed-decode receiver; distinct by hash of the case."
-	c.rec.F.Assumptions = []string{"only observable state is compared (exported fields and query results), as the property words it", "a decoder object is used for one Decode call; re-decoding into a used object is not generated"}
+	c.rec.F.Assumptions = []string{"only observable state is compared (exported fields and query results), as the property words it", "further Decode calls are made only on an object whose previous Decode succeeded and whose fields the harness has not assigned since; after a refused Decode nothing is asserted about the receiver until a Decode succeeds"}
 	nviol := 0
 	if shard == 0 {
 		for _, a := range apis {
